@@ -20,7 +20,10 @@ QUICK_BUDGET_S = 80
 THOROUGH_BUDGET_S = 900
 RULE = ("charts arrive through ordinary histories that leave non-default row labels (rows given out of order + "
         "sorted(), extra rows trimmed with after()/before(), two pieces joined with append(sort=True), Map.rate by 2 or "
-        "1/2, stack arithmetic), on tempo / SV / note lists; "
+        "1/2, stack arithmetic, a sorted() list re-timed in place through the property setter / iloc so that row "
+        "order is not time order, sorted().append(sorted(), sort=True)), on tempo / SV / note lists; the model is given "
+        "the chart's END state read back from the map; Quaver / osu charts carry non-default header fields "
+        "(initial_scroll_velocity, slider_multiplier, ...) with and without an SV on the first time point; "
         "charts of 1-40 (thorough: up to 90) tempo points in shuffled row order with repeated bpm values, 0-60 SVs "
         "(coinciding with tempo points / each other, before the first tempo point, after the last note), notes and holds "
         "(first note at or after the first tempo point, sometimes exactly on tempo points), five games, override "
@@ -45,6 +48,8 @@ SV_GAMES = ["osu", "quaver"]
 GAMES = ["osu", "quaver", "sm", "bms", "o2jam"]
 
 TOL = Fr(1, 2 ** 40)
+# header fields the routines must not depend on
+META_FIELDS = {"quaver": ("initial_scroll_velocity",), "osu": ("slider_multiplier", "slider_tick_rate", "stack_leniency")}
 
 
 # ------------------------------------------------------------------------------------------ implementation
@@ -127,6 +132,26 @@ def _apply_list_op(rows, op, make, filler):
             allrows.insert(rnd.randrange(0, len(allrows) + 1), e)
         lst = make(allrows)
         return lst.after(lo - 5e5, include_end=True) if below else lst.before(hi + 5e5, include_end=True)
+    if k == "retime":                       # a sorted() list whose rows are then re-timed in place
+        ph = [dict(r, offset=float(j)) for j, r in enumerate(rows)]      # placeholders in the final row order
+        perm = list(ph)
+        rnd.shuffle(perm)
+        lst = make(perm).sorted()
+        final = [r["offset"] for r in rows]
+        if op.get("seed", 0) % 2 == 0:
+            lst.offset = final                                            # the list's property setter
+        else:
+            col = list(lst.df.columns).index("offset")
+            for i, t in enumerate(final):
+                lst.iloc[i, col] = t
+        return lst
+    if k == "join":                         # two interleaving pieces, each sorted(), joined with append(sort=True)
+        if len(rows) < 2:
+            return make(rows)
+        first, second = list(rows[::2]), list(rows[1::2])
+        rnd.shuffle(first)
+        rnd.shuffle(second)
+        return make(first).sorted().append(make(second).sorted(), sort=True)
     if k == "append":                       # two pieces joined with append(sort=True)
         if len(rows) < 2:
             return make(rows)
@@ -159,6 +184,10 @@ def build_map(case):
         sv = [dict(offset=fl(t) * by, multiplier=fl(x)) for t, x in case.get("svs", [])]
         m.svs = _apply_list_op(sv, hist.get("svs"), lambda rs: SvList([Sv(**r) for r in rs]),
                                lambda o: dict(offset=o, multiplier=1.0))
+    for name, val in (case.get("meta") or {}).items():       # non-default header fields
+        if name not in META_FIELDS.get(case["game"], ()):
+            raise ValueError(name)
+        setattr(m, name, fl(val))
     if mop:
         if mop["op"] == "rate":
             m = m.rate(by)
@@ -172,20 +201,25 @@ def build_map(case):
 
 
 def readback(case, m):
-    """the history must end with exactly the rows of the case, in row order (else the harness is wrong)"""
-    got = [(Fr(float(o)), Fr(float(b))) for o, b in zip(m.bpms.offset.tolist(), m.bpms.bpm.tolist())]
+    """the rows the chart ends up with (the END state is what the routines see and what the model is given).
+    As sets they must be the rows of the case - else the harness is wrong; their order is read from the chart."""
+    got_b = [(Fr(float(o)), Fr(float(b))) for o, b in zip(m.bpms.offset.tolist(), m.bpms.bpm.tolist())]
     want = [(F(t), F(b)) for t, b in case["bpms"]]
-    if got != want:
-        raise AssertionError(f"history does not rebuild the tempo rows: {got[:5]} vs {want[:5]}")
+    if sorted(got_b) != sorted(want):
+        raise AssertionError(f"history does not rebuild the tempo rows: {got_b[:5]} vs {want[:5]}")
+    got_s = []
     if hasattr(m, "svs"):
-        got = [(Fr(float(o)), Fr(float(x))) for o, x in zip(m.svs.offset.tolist(), m.svs.multiplier.tolist())]
+        got_s = [(Fr(float(o)), Fr(float(x))) for o, x in zip(m.svs.offset.tolist(), m.svs.multiplier.tolist())]
         want = [(F(t), F(x)) for t, x in case.get("svs", [])]
-        if got != want:
-            raise AssertionError(f"history does not rebuild the SV rows: {got[:5]} vs {want[:5]}")
+        if sorted(got_s) != sorted(want):
+            raise AssertionError(f"history does not rebuild the SV rows: {got_s[:5]} vs {want[:5]}")
     got = sorted(Fr(float(o)) for o in m.hits.offset.tolist() + m.holds.offset.tolist())
     want = sorted([F(t) for t in case["notes"]] + [F(t) for t, _ in case.get("holds", [])])
     if got != want:
         raise AssertionError("history does not rebuild the notes")
+    m._c19_rows = dict(bpms=[[R(t), R(b)] for t, b in got_b], svs=[[R(t), R(x)] for t, x in got_s],
+                       as_planned=(got_b == [(F(t), F(b)) for t, b in case["bpms"]]
+                                   and got_s == [(F(t), F(x)) for t, x in (case.get("svs", []) if hasattr(m, "svs") else [])]))
 
 
 def labels_nondefault(m):
@@ -267,6 +301,9 @@ def valid(case):
             return False
         if case.get("override") is not None and F(case["override"]) < 0:
             return False
+        for name, val in (case.get("meta") or {}).items():
+            if name not in META_FIELDS.get(case["game"], ()) or F(val) <= 0 or Fr(float(F(val))) != F(val):
+                return False
         hist = case.get("hist") or {}
         for key, op in hist.items():
             if op is None:
@@ -275,11 +312,11 @@ def valid(case):
                 if op.get("op") not in ("rate", "stack") or (op["op"] == "rate" and F(op["by"]) not in (Fr(2), Fr(1, 2))):
                     return False
                 continue
-            if key not in ("bpms", "svs", "notes") or op.get("op") not in ("sorted", "filter", "append"):
+            if key not in ("bpms", "svs", "notes") or op.get("op") not in ("sorted", "filter", "append", "retime", "join"):
                 return False
             if not isinstance(op.get("seed", 0), int) or not isinstance(op.get("n", 1), int) or op.get("seed", 0) < 0:
                 return False
-            if op["op"] in ("sorted", "append") and key in ("bpms", "svs"):
+            if op["op"] in ("sorted", "append", "join") and key in ("bpms", "svs"):
                 # the history ends in time order: the rows of the case must be ascending, without ties
                 tt = [F(p[0]) for p in case.get(key, [])]
                 if any(x >= y for x, y in zip(tt[:-1], tt[1:])):
@@ -289,10 +326,14 @@ def valid(case):
         return False
 
 
-def jcase(case):
+def jcase(case, m=None):
+    """model / spec input. The tempo and SV rows are the chart's END state, read back from the built map"""
     sv = case.get("svs", []) if case["game"] in SV_GAMES else []
+    bp = case["bpms"]
+    if m is not None:
+        bp, sv = m._c19_rows["bpms"], m._c19_rows["svs"]
     ts = all_times(case)
-    return dict(bpms=case["bpms"], svs=sv, omin=R(min(ts)), omax=R(max(ts)), last=R(max(ts)),
+    return dict(bpms=bp, svs=sv, omin=R(min(ts)), omax=R(max(ts)), last=R(max(ts)),
                 override=case.get("override"), has_sv=case["game"] in SV_GAMES)
 
 
@@ -424,14 +465,14 @@ def gen_hist(rng, c, game):
     for key in ("bpms", "svs", "notes"):
         if rng.random() < 0.4:
             continue
-        kind = rng.choice(["sorted", "filter", "append"])
+        kind = rng.choice(["sorted", "filter", "append", "retime", "retime", "join"])
         if key == "svs":
             ts = [F(t) for t, _ in c["svs"]]
             if game not in SV_GAMES or not ts:
                 continue
-            if len(set(ts)) != len(ts):
+            if len(set(ts)) != len(ts) and kind != "retime":
                 kind = "filter"
-        if kind in ("sorted", "append") and key in ("bpms", "svs"):
+        if kind in ("sorted", "append", "join") and key in ("bpms", "svs"):
             c[key] = sorted(c[key], key=lambda p: F(p[0]))
         h[key] = dict(op=kind, seed=rng.randrange(0, 1000), n=rng.choice([1, 2, 5]))
     q = rng.random()
@@ -442,8 +483,25 @@ def gen_hist(rng, c, game):
     return h
 
 
+def gen_meta(rng, c, game):
+    """non-default header fields (the routines must not depend on them); for SV games sometimes an SV on the
+    very first time point, so that both situations occur with every header value"""
+    meta = {}
+    if game == "quaver" and rng.random() < 0.6:
+        meta["initial_scroll_velocity"] = R(Fr(rng.choice([0.5, 2.5, 0.75, 2.0, 1.0, 4.0])))
+    if game == "osu" and rng.random() < 0.4:
+        meta["slider_multiplier"] = R(Fr(rng.choice([2.5, 0.5, 3.0])))
+        if rng.random() < 0.5:
+            meta["stack_leniency"] = R(Fr(0.25))
+    if game in SV_GAMES and rng.random() < 0.3:
+        t0 = min(all_times(dict(c, game=game)))
+        c["svs"] = c["svs"] + [[R(t0), R(g_mult(rng, True))]]
+    return meta
+
+
 def gen(rng, tier, i):
     c = _gen(rng, tier, i)
+    c["meta"] = gen_meta(rng, c, c["game"])
     c["hist"] = gen_hist(rng, c, c["game"])
     return c
 
@@ -520,6 +578,21 @@ def corpus():
                           notes=dict(op="filter", seed=5, n=1), map=dict(op="rate", by=R(Fr(1, 2))))))
     c.append(_c("dominant", "sm", [(0, 100), (1000, 200), (2500, 50)], [0, 3000],
                 hist=dict(bpms=dict(op="append", seed=3, n=1), map=dict(op="stack"))))
+    # a sorted() list re-timed in place so that the row order is no longer the time order; interleaving sorted
+    # pieces joined with append(sort=True)   (seeded change C19-E: sorted() trusting a stale marker)
+    for claim, game in (("dominant", "osu"), ("normalize", "quaver"), ("speed", "sm")):
+        for sd in (0, 1):
+            c.append(_c(claim, game, [(1000, 200), (0, 100), (2500, 50)], [0, 3000],
+                        hist=dict(bpms=dict(op="retime", seed=sd, n=1))))
+        c.append(_c(claim, game, [(0, 100), (1000, 200), (1500, 100), (6000, 50)], [0, 7000],
+                    hist=dict(bpms=dict(op="join", seed=2, n=1))))
+    # header fields the routines must not read   (seeded change C19-F: initial_scroll_velocity as the first SV)
+    c.append(_c("speed", "quaver", [(0, 100), (1000, 200)], [0, 3000], svs=[(500, 2)],
+                meta=dict(initial_scroll_velocity=R(2.5))))
+    c.append(_c("speed", "quaver", [(0, 100), (1000, 200)], [0, 3000], svs=[(0, 0.5), (500, 2)],
+                meta=dict(initial_scroll_velocity=R(0.5))))
+    c.append(_c("speed", "osu", [(0, 100), (1000, 200)], [0, 3000], svs=[(500, 2)],
+                meta=dict(slider_multiplier=R(2.5), stack_leniency=R(0.25))))
     return c
 
 
@@ -539,6 +612,8 @@ def base_tags(case, jc):
     for key, op in (case.get("hist") or {}).items():
         if op:
             tags.append(f"hist-{key}:{op['op']}")
+    for name in (case.get("meta") or {}):
+        tags.append(f"meta:{name}")
     return tags
 
 
@@ -570,10 +645,10 @@ def stack_bounds_agree(m, jc):
 
 def run_dominant(case, drv):
     from reamber.algorithms.utils import dominant_bpm
-    jc = jcase(case)
-    tags = base_tags(case, jc)
     m = build_map(case)
-    tags += [f"labels:{x}" for x in labels_nondefault(m)]
+    jc = jcase(case, m)
+    tags = base_tags(case, jc)
+    tags += [f"labels:{x}" for x in labels_nondefault(m)] + ([] if m._c19_rows["as_planned"] else ["end-state-reordered"])
     try:
         impl = ("ok", to_fr(dominant_bpm(m)))
     except Exception as e:
@@ -619,10 +694,10 @@ def run_dominant(case, drv):
 
 def run_normalize(case, drv):
     from reamber.algorithms.generate.sv_normalize import sv_normalize
-    jc = jcase(case)
-    tags = base_tags(case, jc) + ["override" if case.get("override") is not None else "dominant-ref"]
     m = build_map(case)
-    tags += [f"labels:{x}" for x in labels_nondefault(m)]
+    jc = jcase(case, m)
+    tags = base_tags(case, jc) + ["override" if case.get("override") is not None else "dominant-ref"]
+    tags += [f"labels:{x}" for x in labels_nondefault(m)] + ([] if m._c19_rows["as_planned"] else ["end-state-reordered"])
     ov = None if case.get("override") is None else fl(case["override"])
     try:
         out = sv_normalize(m) if ov is None else sv_normalize(m, ov)
@@ -689,11 +764,11 @@ def _speed_eval(drv, jc, ref, rows):
 
 def run_speed(case, drv):
     from reamber.algorithms.analysis.scroll_speed import scroll_speed
-    jc = jcase(case)
+    m = build_map(case)
+    jc = jcase(case, m)
     tags = base_tags(case, jc) + ["override" if case.get("override") is not None else "dominant-ref",
                                   "has-sv" if jc["has_sv"] else "no-sv"]
-    m = build_map(case)
-    tags += [f"labels:{x}" for x in labels_nondefault(m)]
+    tags += [f"labels:{x}" for x in labels_nondefault(m)] + ([] if m._c19_rows["as_planned"] else ["end-state-reordered"])
     ov = None if case.get("override") is None else fl(case["override"])
     try:
         s = scroll_speed(m) if ov is None else scroll_speed(m, ov)
